@@ -630,6 +630,14 @@ func trExpr(e ast.Expr, en env) val {
 			}
 			return val{lean: "[" + strings.Join(els, ", ") + "]", kd: kind{k: "list", s: "AFTResult"}}
 		}
+		if at, ok := v.Type.(*ast.ArrayType); ok && render(at.Elt) == "cmp.Option" {
+			// []cmp.Option{cmpopts.IgnoreFields(T{}, fields...), protocmp.Transform()}: represented by the
+			// list of ignored field names (the only part of it a translated decision builds)
+			if len(v.Elts) != 2 || render(v.Elts[1]) != "protocmp.Transform()" {
+				fail(v.Pos(), "cmp option list other than {IgnoreFields(..), protocmp.Transform()}")
+			}
+			return trExpr(v.Elts[0], en)
+		}
 		if at, ok := v.Type.(*ast.ArrayType); ok && len(v.Elts) > 0 {
 			if st, ok := at.Elt.(*ast.StarExpr); ok {
 				name := render(st.X)
@@ -2074,8 +2082,37 @@ func trBlock(list []ast.Stmt, en env, k cont) string {
 				return trStmts([]ast.Stmt{r}, inner, func(e env) string { return k(e.pop()) })
 			}
 		}
+		// ... or before failing the test (t.Fatal / t.Fatalf of the formatted text)
+		if es, ok := list[n-1].(*ast.ExprStmt); ok && cur != nil && cur.tbFatal {
+			if c, ok := es.X.(*ast.CallExpr); ok && (render(c.Fun) == "t.Fatal" || render(c.Fun) == "t.Fatalf") {
+				decl := map[string]bool{}
+				if u, isAddr := firstBufferDecl(list[0]); isAddr != "" {
+					decl[isAddr] = true
+					_ = u
+					if localOnly(list[1:n-1], decl) {
+						return trStmts([]ast.Stmt{es}, inner, func(e env) string { return k(e.pop()) })
+					}
+				}
+			}
+		}
 	}
 	return trStmts(list, inner, func(e env) string { return k(e.pop()) })
+}
+
+// firstBufferDecl: `buf := &bytes.Buffer{}` — the name declared, or ""
+func firstBufferDecl(st ast.Stmt) (ast.Stmt, string) {
+	a, ok := st.(*ast.AssignStmt)
+	if !ok || a.Tok != token.DEFINE || len(a.Lhs) != 1 || len(a.Rhs) != 1 {
+		return nil, ""
+	}
+	if render(a.Rhs[0]) != "&bytes.Buffer{}" {
+		return nil, ""
+	}
+	id, ok := a.Lhs[0].(*ast.Ident)
+	if !ok {
+		return nil, ""
+	}
+	return st, id.Name
 }
 
 // lockEffect: x.Lock() / x.RLock() takes x; x.Unlock() / x.RUnlock() releases it
